@@ -84,7 +84,7 @@ pub fn run(ctx: &mut Ctx) {
     ctx.floor("cas.cases", 3_000);
 
     // ------------------------------------------------ DH
-    let n = ctx.tier.pick(4_000, 40_000);
+    let n = ctx.tier.pick(16000, 160000);
     ctx.family("dh", n, |ctx, case: &mut Case| {
         let r = &mut case.rng;
         let b = [0usize, 1, 255, 256, 65535];
@@ -143,7 +143,7 @@ pub fn run(ctx: &mut Ctx) {
         }
     });
     ctx.mark_exhaustive("all 254 EC curve types other than explicit-prime / named-curve rejected");
-    let n = ctx.tier.pick(4_000, 40_000);
+    let n = ctx.tier.pick(16000, 160000);
     ctx.family("ec", n, |ctx, case: &mut Case| {
         let r = &mut case.rng;
         let v = gen::ecdh(r);
@@ -171,7 +171,7 @@ pub fn run(ctx: &mut Ctx) {
         }
     });
     ctx.mark_exhaustive("DigitallySigned: all 256x256 (hash, signature) algorithm pairs");
-    let n = ctx.tier.pick(3_000, 30_000);
+    let n = ctx.tier.pick(12000, 120000);
     ctx.family("sig", n, |ctx, case: &mut Case| {
         let r = &mut case.rng;
         let b = [0usize, 1, 255, 256, 65535];
@@ -194,7 +194,7 @@ pub fn run(ctx: &mut Ctx) {
     });
 
     // ------------------------------------------------ parse_content_and_signature
-    let n = ctx.tier.pick(3_000, 30_000);
+    let n = ctx.tier.pick(12000, 120000);
     ctx.family("content-and-signature", n, |ctx, case: &mut Case| {
         let r = &mut case.rng;
         let ext = r.bool();
